@@ -182,6 +182,10 @@ func coerceValue(ttype Input, value interface{}) interface{} {
 // TODO: figure out where to organize utils
 // TODO: change to *Schema
 func typeFromAST(schema Schema, inputTypeAST ast.Type) (Type, error) {
+	if inputTypeAST == nil {
+		// a definition the parser left without a type, e.g. `query($a: ) { f }`
+		return nil, nil
+	}
 	switch inputTypeAST := inputTypeAST.(type) {
 	case *ast.List:
 		innerType, err := typeFromAST(schema, inputTypeAST.Type)
